@@ -76,6 +76,26 @@ and parse_list (toks : ostring list) : prog list * ostring list =
   | [] -> raise (Bad "unterminated")
   | _ -> let p, r1 = parse toks in let ps, r2 = parse_list r1 in (p :: ps, r2)
 
+(* command-line cases: INPUT = "cmdline <tokens> :: zygo <argv>", tokens: S (-sandbox / --sandbox), S=1, S=0,
+   B (another boolean flag), VI (string flag with inline value), V (string flag taking the next argument),
+   D (--), P (not a flag), X (undefined flag). MODEL = run_cmdline; SPEC = "sandboxed" when the flag part
+   (up to the first P / D / the end) consists of flags only and leaves the sandbox flag on, "-" otherwise. *)
+let arg_of = function
+  | "S" -> ASandbox None | "S=1" -> ASandbox (Some true) | "S=0" -> ASandbox (Some false)
+  | "B" -> ABool | "VI" -> AStr true | "V" -> AStr false | "D" -> ADashDash | "P" -> APlain | "X" -> ABad
+  | s -> raise (Bad ("arg " ^ s))
+let outcome_name = function ORejected -> "rejected" | OSandboxed -> "sandboxed" | OOpen -> "open"
+let cmdline_case (toks : ostring) : ostring * ostring =
+  let args = List.map arg_of (List.filter (fun x -> x <> "") (Stdlib.String.split_on_char ' ' toks)) in
+  let rec flagpart acc = function
+    | a :: r when is_flag a -> flagpart (a :: acc) r
+    | r -> (List.rev acc, r) in
+  let pre, rest = flagpart [] args in
+  let spec = (match rest with
+    | [] | APlain :: _ | ADashDash :: _ -> if last_sandbox false pre then "sandboxed" else "-"
+    | _ -> "-") in
+  (outcome_name (run_cmdline args), spec)
+
 let cfg_of = function "bare" -> Bare | "std" -> Std | "bin" -> Bin | "full" -> Full | s -> raise (Bad ("cfg " ^ s))
 
 let () =
@@ -91,6 +111,10 @@ let () =
       (try
         let k = find_sub input " :: " in
         let head = String.sub input 0 k in
+        if Stdlib.String.length head > 8 && Stdlib.String.sub head 0 8 = "cmdline " then begin
+          let m, sp = cmdline_case (Stdlib.String.sub head 8 (Stdlib.String.length head - 8)) in
+          Printf.printf "%s\t%s\t%s\n" id m sp
+        end else
         let sp = String.index head ' ' in
         let c = cfg_of (String.sub head 0 sp) in
         let abs = String.sub head (sp + 1) (String.length head - sp - 1) in
